@@ -18,7 +18,14 @@ func (vc *VC) bvBinop(fx *fexec, st *State, op token.Token, a, b Val, rt types.T
 		if ii.signed {
 			return Val{Ty: rt, T: app(SBool, sop, a.T, b.T)}
 		}
-		return Val{Ty: rt, T: app(SBool, uop, a.T, b.T)}
+		t := app(SBool, uop, a.T, b.T)
+		if vc.bridged[a.T.S] || vc.bridged[b.T.S] {
+			// one side came from an integer (e.g. uint64(len(s))): state the comparison
+			// over the integers as well — true by the semantics of bv2nat
+			iop := map[string]string{"bvult": "<", "bvule": "<=", "bvugt": ">", "bvuge": ">="}[uop]
+			vc.assert(eq(t, app(SBool, iop, app(SInt, "bv2nat", a.T), app(SInt, "bv2nat", b.T))))
+		}
+		return Val{Ty: rt, T: t}
 	}
 	zero := bvLit(big.NewInt(0), ii.w)
 	switch op {
